@@ -88,7 +88,9 @@ func (p *planner) planComplex(root iExpressionPlanner, current iExpressionPlanne
 				prefix: p.getPrefix(),
 			}},
 		})
-		p.planComplex(root, current.operands()[0], script.Tail)
+		// continue inside the && node that was just added: it is the last operand of current
+		ops := current.operands()
+		p.planComplex(root, ops[len(ops)-1], script.Tail)
 	case "||":
 		current.addOp(&simpleExpressionPlanner{
 			script: script,
